@@ -4,7 +4,8 @@
      nsec <apex> <dnskey 0|1> <name>/<rtype> ..  => Ok <owner>/<next>/<bitmap> .. | Err n | Panic
      nsec3 <apex> <dnskey> <alg> <flags> <iters> <salt> <excl 0|1> <name>/<rtype> ..
                                                  => Ok <hash>/<next>/<bitmap> .. | Err n | Panic
-     hash <name> <iters> <salt>                  => <hash hex> *)
+     hash <name> <iters> <salt>                  => <hash hex>
+     dedup <name>/<rtype>/<u|k>/<rdata> ..       => <name>/<rtype> .. *)
 let rec labels_of_wire (b : n list) : n list list =
   match b with
   | [] -> failwith "name: no root label"
@@ -48,5 +49,11 @@ let handle = function
         (c13_nsec3 (name_of_hex apex) c (List.map rec_of recs))
   | ["hash"; nm; iters; salt] ->
       hex_of_bytes (c13_hash (name_of_hex nm) (n_of_int (int_of_string iters)) (bytes_of_hex salt))
+  | "dedup" :: recs ->
+      let srec_of s = match String.split_on_char '/' s with
+        | [nm; t; k; d] -> ((name_of_hex nm, n_of_int (int_of_string t)), (k = "u", bytes_of_hex d))
+        | _ -> failwith "bad srec" in
+      show_list (fun (nm, t) -> hex_of_name nm ^ "/" ^ string_of_int (int_of_n t))
+        (c13_dedup (List.map srec_of recs))
   | _ -> failwith "bad case line"
 let () = main handle
